@@ -24,7 +24,8 @@ pub(super) fn insert_reserved_times_as_breaks(
         .flat_map(|times| times.iter())
         .map(|reserved_time| reserved_time.to_reserved_time_window(shift_time.start))
         .map(|rt| (TimeWindow::new(rt.time.end, rt.time.end + rt.duration), rt))
-        .filter(|(reserved_tw, _)| shift_time.intersects(reserved_tw))
+        // NOTE a break which ends exactly when the tour starts (or starts exactly when it ends) is not part of the tour
+        .filter(|(reserved_tw, _)| shift_time.intersects_exclusive(reserved_tw))
         .for_each(|(reserved_tw, reserved_time)| {
             // NOTE scan and insert a new stop if necessary
             let break_info = tour.stops.windows(2).enumerate().find_map(|(leg_idx, stops)| {
